@@ -91,6 +91,9 @@ DCONN = ("dconn", False)
 DCONN_HOLD = ("dconn", True)  # the peer connects the data channel and never reads from it
 DCONN_HOLD_NR = ("dconn", "noread")  # same, and when released it reads only what fits its receive buffer
 RELEASE = ("release", None)  # ... starts reading after all
+CHOLD = ("chold", None)  # the peer stops reading the control channel ...
+FLOOD = ("flood", 80)  # ... and sends 80 unknown 1000-byte verbs: > 64 KiB of 502 replies, the reply writer blocks
+CRELEASE = ("crelease", None)  # ... and reads again
 DSEND = ("dsend", 1000)
 DEOF = ("deof", None)
 
@@ -113,9 +116,11 @@ SCRIPTS = {
     "mlsd_noconn": [(1, USER), (1, PASV), (1, MLSD), (4, PWD)],
     "epsv_retr_hold": [(1, USER), (1, EPSV), (H, DCONN_HOLD), (H, RETR)],
     "epsv_stor": [(1, USER), (1, EPSV), (H, DCONN), (H, STOR), (H, DSEND)],
+    "ctrl_not_reading": [(1, USER), (1, CHOLD), (H, FLOOD), (F(3, 2), PWD)],
+    "ctrl_not_reading_release": [(1, USER), (1, CHOLD), (H, FLOOD), (F(3, 2), CRELEASE), (1, PWD)],
     "retr_noconn_then_ok": [(1, USER), (1, PASV), (1, RETR), (F(7, 2), DCONN), (H, RETR), (1, PWD)],
 }
-QUICK_ALL_COMBOS = ("login", "login_pwd", "retr_noconn", "retr_hold", "stor")
+QUICK_ALL_COMBOS = ("login", "login_pwd", "retr_noconn", "retr_hold", "stor", "ctrl_not_reading")
 
 
 def check_scripts():
@@ -123,7 +128,7 @@ def check_scripts():
         t, last = F(0), None
         for gap, (kind, _) in sc:
             t += gap
-            if kind == "cmd":
+            if kind in ("cmd", "flood"):
                 if last is not None and (t - last) in (2, 5, 30):
                     raise AssertionError(f"script {name}: command gap {t - last} coincides with a timeout value")
                 last = t
@@ -264,6 +269,19 @@ def run_case(script, k, cfg, throttle=None, horizon=HORIZON):
                         data[-1][1].out.release()
                     events.append(("release", now, None))
                     await net.settle()
+                elif kind == "chold":
+                    ctrl_st.out.hold = True
+                    events.append(("chold", now, None))
+                elif kind == "crelease":
+                    ctrl_st.out.release()
+                    events.append(("crelease", now, None))
+                    await net.settle()
+                elif kind == "flood":
+                    for _ in range(arg):
+                        w.write(b"X" * 1000 + b"\r\n")
+                    events.append(("flood", now, arg))
+                    await net.settle()
+                    obs["write_paused"] = ctrl_st.write_paused
                 elif kind == "dsend":
                     if data:
                         data[-1][0].write(b"d" * arg)
@@ -283,7 +301,8 @@ def run_case(script, k, cfg, throttle=None, horizon=HORIZON):
             obs["t_stall"] = t_stall
             obs["events"] = events
             obs["replies"] = [(t, l) for t, l in peer.log if l is not None]
-            obs["eof"] = peer.eof
+            # a peer that is not reading its control channel cannot see the EOF: take the server-side close instant
+            obs["eof"] = closed_at.get(ctrl_st) if ctrl_st.out.hold else peer.eof
             obs["r425"] = [t for t, l in peer.log if l and l.startswith("425")]
             obs["ctrl_closed"] = closed_at.get(ctrl_st)
             obs["data_closed"] = [closed_at.get(st) for _, st in data]
@@ -366,6 +385,11 @@ def model_events(obs, throttled=False):
             held = False
             # a peer that drains completes the transfer at once; one that reads only a buffer-full makes progress and stalls again
             evs.append([2 if noread else 3, q(t), q(0), 0])
+        elif kind == "flood":
+            evs.append([0, q(t), q(0), 0])  # the lines are consumed at t ...
+            evs.append([4, q(t), q(0), 0])  # ... and the reply writer blocks at t (peer not reading)
+        elif kind == "crelease":
+            evs.append([5, q(t), q(0), 0])
         elif kind == "dsend":
             evs.append([2, q(t), q(0), 0])
         elif kind == "deof":
@@ -415,8 +439,18 @@ def oracle(obs, cfg, eps=F(0)):
     idle, sock, wf = cfg
     bad = []
     E = obs["eof"]
-    cmds = [(t, a) for kind, t, a in obs["events"] if kind == "cmd"]
+    cmds = [(t, a) for kind, t, a in obs["events"] if kind in ("cmd", "flood")]
     started, refused = transfers_of(obs, wf)
+    # intervals during which the peer does not read its control channel
+    blind, h0 = [], None
+    for kind, t, _ in obs["events"]:
+        if kind == "chold":
+            h0 = t
+        elif kind == "crelease" and h0 is not None:
+            blind.append((h0, t))
+            h0 = None
+    if h0 is not None:
+        blind.append((h0, F(10**9)))
     # ---- bounds that can legitimately end the session
     bounds = []
     idle_lower = idle_upper = None
@@ -435,6 +469,16 @@ def oracle(obs, cfg, eps=F(0)):
         bounds.append(idle_lower)
     if sock is not None and started:
         bounds.append(min(st for _, st, _ in started) + sock)
+    # a reply write that blocks because the peer does not read (flood while blind) is bounded by socket_timeout
+    cw_upper = None
+    for kind, t, _ in obs["events"]:
+        if kind == "flood" and sock is not None and any(a <= t < b for a, b in blind):
+            bounds.append(t + sock)
+            rel = [b for a, b in blind if a <= t < b][0]
+            if sock > 0 and rel >= t + sock:
+                cw_upper = t + sock + eps
+    if cw_upper is not None and (E is None or E > cw_upper):
+        bad.append(("c16-ctrl-write-not-abandoned", f"socket_timeout={sock}: reply write blocked by a peer that does not read, session not closed by {cw_upper} (closed at {E})"))
     # ---- no release earlier than the earliest applicable bound; none at all without a bound
     if E is not None:
         if not bounds:
@@ -464,6 +508,8 @@ def oracle(obs, cfg, eps=F(0)):
     for t, a in cmds:
         if E is not None and E <= t + eps:
             continue
+        if any(x <= t < y for x, y in blind) or isinstance(a, int):
+            continue  # the peer is not reading: replies are not observable
         if not any(t <= rt <= t + eps for rt, _ in obs["replies"]):
             bad.append(("c16-command-unanswered", f"{a} at {t} got no reply although the session was up (closed at {E})"))
     # ---- a data connection that stops moving is given up after socket_timeout
